@@ -82,7 +82,7 @@ FIRING = [
     ('module-level-parser', [(P, "    parser = Parser(with_comments=with_comments)\n    return parser.parse(source)",
                               "    global _P\n    try:\n        parser = _P\n    except NameError:\n        parser = _P = Parser(with_comments=with_comments)\n    return parser.parse(source)", 0)], 'C15', 'R15.'),
     ('catch-children-dropped', [('asttypes.py', "        return [self.identifier, self.elements]", "        return [self.identifier]", 0)], 'C16', 'R16.1'),
-    ('write-acquire-before-try', [('io.py', "    try:\n        out_s = get_stream(output_stream)", "    out_s = get_stream(output_stream)\n    try:\n        pass", 0)], 'C18', 'R18.2'),
+    ('write-closer-not-registered', [('io.py', "            closer.append(result.close)\n        else:", "        else:", 0)], 'C18', 'R18.2'),
     ('read-drop-finally', [('io.py', "    finally:\n        if callable(stream):\n            source.close()\n", "    finally:\n        pass\n", 0)], 'C18', 'R18.1'),
     ('guard-deleted-get-lexer-token', [(L, "        if token:\n            token.colno = self._get_colno(token)\n            self._update_newline_idx(token)",
                                         "        token.colno = self._get_colno(token)\n        self._update_newline_idx(token)", 0)], 'C12', 'R12.2'),
